@@ -8,6 +8,8 @@
 -/
 import TT.Model.Capture
 import TT.Props.C12
+import TT.Lemmas.CapRegC
+import TT.Lemmas.CapRegE
 
 namespace TT
 
@@ -24,13 +26,184 @@ def wfFromS (sites : List CallSite) (st : WfSt) : List POp → Bool
 
 def wfProgS (sites : List CallSite) (ops : List POp) : Bool := wfFromS sites {} ops
 
+/-- The live handles after a well-formedness step, and what the step guarantees. -/
+theorem cr_wf_step (sites : List CallSite) (st st' : WfSt) (fe : FE CapWorld) (op : POp)
+    (h : CrFInv st.live fe) (hw : wfStepS sites st op = some st') :
+    CrFInv st'.live (feStep (capSub 0) sites fe op) := by
+  cases op with
+  | reg k =>
+    simp only [wfStepS, wfStep, Option.some.injEq] at hw
+    subst hw
+    exact cr_fe_reg sites k h
+  | new k p vals =>
+    simp only [wfStepS, wfStep] at hw
+    split at hw
+    · rename_i hc
+      simp only [Bool.and_eq_true, decide_eq_true_eq] at hc
+      obtain ⟨⟨⟨hp, _⟩, _⟩, _⟩ := hc
+      simp only [Option.some.injEq] at hw
+      subst hw
+      apply cr_fe_new sites k p vals h
+      intro s hs; subst hs; exact hp
+    · simp at hw
+  | record s vals =>
+    simp only [wfStepS, wfStep] at hw
+    split at hw
+    · rename_i hc
+      simp only [Bool.and_eq_true, decide_eq_true_eq] at hc
+      obtain ⟨⟨hl, _⟩, _⟩ := hc
+      simp only [Option.some.injEq] at hw
+      subst hw
+      exact cr_fe_record sites s vals h hl
+    · simp at hw
+  | fol a b =>
+    simp only [wfStepS] at hw
+    split at hw
+    · rename_i hc
+      simp only [Bool.and_eq_true, decide_eq_true_eq] at hc
+      simp only [Option.some.injEq] at hw
+      subst hw
+      exact cr_fe_fol sites a b h hc.1
+    · simp at hw
+  | ent s =>
+    simp only [wfStepS, wfStep] at hw
+    split at hw
+    · rename_i hl
+      simp only [Option.some.injEq] at hw
+      subst hw
+      exact cr_fe_ent sites s h hl
+    · simp at hw
+  | ext s =>
+    simp only [wfStepS, wfStep] at hw
+    split at hw
+    · rename_i hc
+      simp only [Bool.and_eq_true] at hc
+      simp only [Option.some.injEq] at hw
+      subst hw
+      exact cr_fe_ext sites s h hc.1
+    · simp at hw
+  | cln s =>
+    simp only [wfStepS, wfStep] at hw
+    split at hw
+    · rename_i hl
+      simp only [Option.some.injEq] at hw
+      subst hw
+      exact cr_fe_cln sites s h hl
+    · simp at hw
+  | drp s =>
+    simp only [wfStepS, wfStep] at hw
+    split at hw
+    · rename_i hl
+      split at hw
+      · simp at hw
+      · simp only [Option.some.injEq] at hw
+        subst hw
+        exact cr_fe_drp sites s h hl
+    · simp at hw
+  | evt k p vals =>
+    simp only [wfStepS, wfStep] at hw
+    split at hw
+    · simp only [Option.some.injEq] at hw
+      subst hw
+      exact cr_fe_evt sites k p vals h
+    · simp at hw
+
+theorem cr_wf_run (sites : List CallSite) (ops : List POp) :
+    ∀ (st : WfSt) (fe : FE CapWorld), CrFInv st.live fe → wfFromS sites st ops = true →
+      ∃ st' : WfSt, CrFInv st'.live (runProg (capSub 0) sites fe ops) := by
+  induction ops with
+  | nil => intro st fe h _; exact ⟨st, h⟩
+  | cons op ops ih =>
+    intro st fe h hwf
+    simp only [wfFromS] at hwf
+    cases hw : wfStepS sites st op with
+    | none => simp [hw] at hwf
+    | some st' =>
+      simp only [hw] at hwf
+      simp only [runProg, List.foldl_cons]
+      exact ih st' _ (cr_wf_step sites st st' fe op h hw) hwf
+
 /-- No callback of any capture layer panics (so no storage lock is poisoned), for every program
     the API permits — stale follows-from targets, records and enters on filtered-out spans
     included —, every stack of layers and filters. -/
 theorem C16_no_panic (filters : List LFilter) (global : Option Nat) (sites : List CallSite) (ops : List POp)
     (hwf : wfProgS sites ops = true) :
     (captureRun filters global sites ops).panicked = false := by
-  sorry
+  obtain ⟨st', h⟩ := cr_wf_run sites ops {} _ (cr_finv_init filters global) hwf
+  exact h.inv.np
+
+theorem cr_wf_sim_step (sites : List CallSite) (st st' : WfSt) (fe fe₁ : FE CapWorld) (op : POp)
+    (i : Nat) (hi : CrFInv st.live fe) (hi₁ : CrFInv st.live fe₁) (h : CrFSim i fe fe₁)
+    (hw : wfStepS sites st op = some st') :
+    CrFSim i (feStep (capSub 0) sites fe op) (feStep (capSub 0) sites fe₁ op) := by
+  cases op with
+  | reg k => exact cr_fs_reg sites k h
+  | new k p vals =>
+    simp only [wfStepS, wfStep] at hw
+    split at hw
+    · rename_i hc
+      simp only [Bool.and_eq_true, decide_eq_true_eq] at hc
+      obtain ⟨⟨⟨hp, _⟩, _⟩, _⟩ := hc
+      apply cr_fs_new sites k p vals hi hi₁ _ h
+      intro s hs; subst hs; exact hp
+    · simp at hw
+  | record s vals =>
+    simp only [wfStepS, wfStep] at hw
+    split at hw
+    · rename_i hc
+      simp only [Bool.and_eq_true, decide_eq_true_eq] at hc
+      exact cr_fs_record sites s vals hi hi₁ hc.1.1 h
+    · simp at hw
+  | fol a b =>
+    simp only [wfStepS] at hw
+    split at hw
+    · rename_i hc
+      simp only [Bool.and_eq_true, decide_eq_true_eq] at hc
+      exact cr_fs_fol sites a b hi hi₁ hc.1 h
+    · simp at hw
+  | ent s =>
+    simp only [wfStepS, wfStep] at hw
+    split at hw
+    · rename_i hl
+      exact cr_fs_ent sites s hi hi₁ hl h
+    · simp at hw
+  | ext s =>
+    simp only [wfStepS, wfStep] at hw
+    split at hw
+    · rename_i hc
+      simp only [Bool.and_eq_true] at hc
+      exact cr_fs_ext sites s hi hi₁ hc.1 h
+    · simp at hw
+  | cln s =>
+    simp only [wfStepS, wfStep] at hw
+    split at hw
+    · rename_i hl
+      exact cr_fs_cln sites s hi hi₁ hl h
+    · simp at hw
+  | drp s =>
+    simp only [wfStepS, wfStep] at hw
+    split at hw
+    · rename_i hl
+      exact cr_fs_drp sites s hi hi₁ hl h
+    · simp at hw
+  | evt k p vals => exact cr_fs_evt sites k p vals hi hi₁ h
+
+theorem cr_wf_sim_run (sites : List CallSite) (i : Nat) (ops : List POp) :
+    ∀ (st : WfSt) (fe fe₁ : FE CapWorld), CrFInv st.live fe → CrFInv st.live fe₁ →
+      CrFSim i fe fe₁ → wfFromS sites st ops = true →
+      CrFSim i (runProg (capSub 0) sites fe ops) (runProg (capSub 0) sites fe₁ ops) := by
+  induction ops with
+  | nil => intro st fe fe₁ _ _ h _; exact h
+  | cons op ops ih =>
+    intro st fe fe₁ hi hi₁ h hwf
+    simp only [wfFromS] at hwf
+    cases hw : wfStepS sites st op with
+    | none => simp [hw] at hwf
+    | some st' =>
+      simp only [hw] at hwf
+      simp only [runProg, List.foldl_cons]
+      exact ih st' _ _ (cr_wf_step sites st st' fe op hi hw) (cr_wf_step sites st st' fe₁ op hi₁ hw)
+        (cr_wf_sim_step sites st st' fe fe₁ op i hi hi₁ h hw) hwf
 
 /-- What a layer captures depends only on the trace and its own filter: in any stack it stores
     exactly what it stores when it is the only capture layer. (Pass-through layers do not appear
@@ -39,7 +212,8 @@ theorem C16_independent (filters : List LFilter) (global : Option Nat) (sites : 
     (hwf : wfProgS sites ops = true) (i : Nat) (hi : i < filters.length) :
     (captureRun filters global sites ops).storages.getD i {}
       = (captureRun [filters.getD i .all] global sites ops).storages.getD 0 {} := by
-  sorry
+  exact (cr_wf_sim_run sites i ops {} _ _ (cr_finv_init filters global)
+    (cr_finv_init [filters.getD i .all] global) (cr_fsim_init filters global i hi) hwf).sim.stor
 
 /-- Non-vacuity: three layers with different filters, a stale follows-from target. -/
 example :
